@@ -153,6 +153,16 @@ def check(spec):
     if spec.get("assemble_twice"):
         sysbuild.assemble(system)
     t0, q0, u0 = system.t0, system.q0, system.u0
+    # the system is evaluated somewhere else first (as any solver does) and only then at its initial state: values
+    # memoised during assembly must not be what makes the initial state look stress-free
+    if system.nq:
+        qx = q0 + 0.05 * np.cos(np.arange(system.nq) + 1.0)
+        system.h(t0 + 0.1, qx, u0)
+        if system.nla_c:
+            system.la_c(t0 + 0.1, qx, u0)
+        system.E_pot(t0 + 0.1, qx)
+        if spec["inter"] == "revolute":
+            inter.l(t0, q0[inter.qDOF])  # (the joint angle is tracked: come back in one step)
     k = spec["element"]["k"]
     l0 = abs(float(inter.l(t0, q0[inter.qDOF])))
     tol = 1e-10 * k * (1 + l0)
